@@ -322,29 +322,86 @@ def earliest(gens_parsed, path):
 
 
 # ---------------------------------------------------------------------------------------------
-# ignore matcher for the restricted alphabet (gitwildmatch subset)
-#   NAME       plain base name            matches an entry of that name at any depth (file or dir)
-#   *.EXT      glob on the base name      matches an entry whose name ends with .EXT at any depth
-#   NAME/      directory pattern          matches a *directory* named NAME at any depth (and all below)
-# Everything below a matched directory is excluded as well.
+# ignore matcher: the gitignore rules, written from their documentation (not from the library the tool uses)
+#   NAME, *.EXT      no separator (but a trailing one): matches an entry of that name / glob at any depth
+#   NAME/            only directories
+#   a/b, /a, a/*.x   a separator at the beginning or in the middle anchors the pattern at the traversal root
+#   **/x, a/**, a/**/b   '**' spans directory levels
+#   !PATTERN         re-includes; the LAST matching pattern decides
+# Everything below an excluded directory is excluded as well (the walk never looks inside, so nothing below can be re-included).
 
 DEFAULT_PATTERNS = [".DS_Store", "ascmhl", "ascmhl/"]
+_PAT_CACHE = {}
 
 
-def _match_one(pattern, name, isdir):
-    if pattern.endswith("/"):
-        return isdir and _match_one(pattern[:-1], name, True)
-    if pattern.startswith("*"):
-        return name.endswith(pattern[1:])
-    return name == pattern
+def _segment_regex(seg):
+    out, i = "", 0
+    while i < len(seg):
+        ch = seg[i]
+        if ch == "*":
+            out += "[^/]*"
+        elif ch == "?":
+            out += "[^/]"
+        elif ch == "[" and "]" in seg[i + 2:]:
+            j = seg.index("]", i + 2)
+            body = seg[i + 1:j]
+            if body.startswith("!"):
+                body = "^" + body[1:]
+            out += "[" + body.replace("\\", "\\\\") + "]"
+            i = j
+        else:
+            out += re.escape(ch)
+        i += 1
+    return out
+
+
+def _compile(pat):
+    c = _PAT_CACHE.get(pat)
+    if c is None:
+        body = pat
+        neg = body.startswith("!")
+        if neg:
+            body = body[1:]
+        dir_only = body.endswith("/")
+        if dir_only:
+            body = body[:-1]
+        anchored = "/" in body
+        if body.startswith("/"):
+            body = body[1:]
+        segs = body.split("/")
+        rx = ""
+        for k, sg in enumerate(segs):
+            last = k == len(segs) - 1
+            if sg == "**":
+                if last:
+                    rx += ".*"
+                else:
+                    rx += "(?:[^/]+/)*"
+                continue
+            rx += _segment_regex(sg)
+            if not last:
+                rx += "/"
+        if not anchored:
+            rx = "(?:.*/)?" + rx
+        c = _PAT_CACHE[pat] = (neg, dir_only, re.compile("^" + rx + "$", re.S), body == "" or pat.startswith("#"))
+    return c
+
+
+def _decide(patterns, relpath, isdir):
+    verdict = False
+    for pat in patterns:
+        neg, dir_only, rx, skip = _compile(pat)
+        if skip or (dir_only and not isdir):
+            continue
+        if rx.match(relpath):
+            verdict = not neg
+    return verdict
 
 
 def ignored(patterns, relpath, isdir):
     """is the entry relpath (relative to the traversal root) excluded by `patterns`?"""
     parts = relpath.split("/")
-    for i, name in enumerate(parts):
-        d = True if i < len(parts) - 1 else isdir
-        for pat in patterns:
-            if _match_one(pat, name, d):
-                return True
-    return False
+    for i in range(1, len(parts)):
+        if _decide(patterns, "/".join(parts[:i]), True):
+            return True
+    return _decide(patterns, relpath, isdir)
